@@ -505,8 +505,10 @@ def bulk_systematic():
     base = [['newclass', []], ['newclass', [1]], ['newclass', [1]], ['newclass', [2, 3]],
             ['addfeat', 1, 'x', 0, 0, 5, 'append'], ['addfeat', 2, 'y', 0, 1, 0, 'append'],
             ['addfeat', 3, 'z', 1, 0, -1, 'append'], ['addop', 1, 'f', [], 'append'], ['addop', 3, 'g', [['a', 1, 'int']], 'append'],
-            ['newinst', 1], ['newinst', 2], ['newinst', 3], ['newinst', 4]]
-    after = [['newinst', 4], ['newinst', 2], ['get', 3, 'x'], ['get', 4, 'x'], ['get', 4, 'z']]
+            ['newinst', 1], ['newinst', 2], ['newinst', 3], ['newinst', 4],
+            ['set', 2, 'z', 1003]]        # an instance of D accepted as an A (reference z of C) before the edit
+    after = [['newinst', 4], ['newinst', 2], ['get', 3, 'x'], ['get', 4, 'x'], ['get', 4, 'z'],
+             ['set', 2, 'z', 1004]]       # ... and a new instance of D judged again afterwards
     out = []
     for target in (4, 2):
         edits = [[['clearsupers', target, via]] for via in CLEAR_VIAS]
